@@ -79,6 +79,8 @@ def gen_weight(rng, nonneg_only=False):
         return {"weight": "persistence", "weight_params": {"n": n}}, (lambda b, p, n=n: np.asarray(p, float) ** n), True
     if kind == "ramp":
         low = float(rng.choice([0.0, 0.0, 0.2])); high = low + float(rng.choice([1.0, 0.5, 3.0]))
+        if rng.random() < 0.25:
+            low, high = high, low          # a decreasing ramp is a legitimate configuration too
         start = float(rng.choice([0.0, 0.3, 1.0])); end = start + float(rng.choice([0.5, 1.0, 2.0]))
 
         def ramp(b, p, low=low, high=high, start=start, end=end):
